@@ -174,8 +174,61 @@ def op_programs():
         b = vjp(v * 2.0)
         return a + b
 
-    progs = {"hvp_sort": hvp_sort, "grad_sort": grad_sort, "hvp_index": hvp_index, "nested_mixed": nested_mixed, "vjp_reuse": vjp_reuse}
+    # ONE operator callable shared by all threads (what a thread pool mapping grad(f) over work items does); the
+    # threads differ in the NON-differentiated arguments.  These programs get yield points at the entry and exit of
+    # autograd.tracer.trace and autograd.core.backward_pass (profile hook, see _lib_hook), i.e. between the
+    # operator's own prologue and the start of the traced function.
+    from autograd import hessian_vector_product, make_jvp
+
+    G = grad(lambda z, c: np.sum(c * np.sin(z) * z))
+    HVP = hessian_vector_product(lambda z, c=1.0: np.sum(w * z ** 3) * c)
+    MJ = make_jvp(lambda z, c: np.cos(z) * c)
+    G1 = grad(lambda c, z: np.sum(c * np.sin(z) * z), 1)
+
+    def shared_grad(me, x, v):
+        return G(x, v)
+
+    def shared_hvp(me, x, v):
+        return HVP(x, v, c=float(me) + 2.0)
+
+    def shared_jvp(me, x, v):
+        j = MJ(x, v)  # the returned closure runs the trace later
+        return j(v * 0.5)[1]
+
+    def shared_grad_argnum(me, x, v):
+        return G1(v, x) + G(x, v * 2.0)
+
+    progs = {"hvp_sort": hvp_sort, "grad_sort": grad_sort, "hvp_index": hvp_index, "nested_mixed": nested_mixed, "vjp_reuse": vjp_reuse,
+             "shared_grad": shared_grad, "shared_hvp": shared_hvp, "shared_jvp": shared_jvp, "shared_grad_argnum": shared_grad_argnum}
     return box, progs
+
+
+_HOOKED = ("trace", "backward_pass")
+
+
+def _lib_hook(box, me):
+    """profile function: a scheduling point at every call and return of autograd.tracer.trace / core.backward_pass"""
+    def prof(frame, event, arg):
+        if event == "call" or event == "return":
+            co = frame.f_code
+            if co.co_name in _HOOKED and (co.co_filename.endswith("autograd/tracer.py") or co.co_filename.endswith("autograd/core.py")):
+                s = box[0]
+                if s is not None:
+                    s.point(me)
+
+    return prof
+
+
+def _run_prog(box, progs, n, t, x, v):
+    import sys
+
+    if n.startswith("shared_"):
+        sys.setprofile(_lib_hook(box, t))
+        try:
+            return progs[n](t, x, v)
+        finally:
+            sys.setprofile(None)
+    return progs[n](t, x, v)
 
 
 def op_level_probe(seed=0, max_schedules=1500):
@@ -209,7 +262,7 @@ def op_level_probe(seed=0, max_schedules=1500):
             c = Count()
             box[0] = c
             x, v = inputs[(t, n)]
-            solo.append(onp.array(progs[n](t, x, v)))
+            solo.append(onp.array(_run_prog(box, progs, n, t, x, v)))
             counts.append(c.n)
         box[0] = None
         n0, n1 = counts
@@ -233,7 +286,7 @@ def op_level_probe(seed=0, max_schedules=1500):
                 try:
                     sched.start(t)
                     x, v = inputs[(t, n)]
-                    res[t] = onp.array(progs[n](t, x, v))
+                    res[t] = onp.array(_run_prog(box, progs, n, t, x, v))
                 except BaseException as e:  # noqa
                     errs[t] = "%s: %s" % (type(e).__name__, e)
                     with sched.cv:
